@@ -80,12 +80,18 @@ def subset_job(args):
             and c.metadata["readout info"].total_num_qubits == N
         all_counts.append(tomo.symbolic_counts(N, f"c{j}_", spaced=(j % 2 == 1)))
     out.append(("C11.compose.onto_measured_qubits", ok_asm, f"asm:{N}:{list(ql)}:{n}:{conn}:{mode}", f"{mode} circuits for measured_qubits={list(ql)} of {N}: readout not composed onto the listed qubits / wrong measure map", rp))
+    spaced_odd = True
+
+    def call(counts_list, full):
+        if mode == "fst":
+            return T.FullStateTomographyFitter(tomo.FakeResult(counts_list), circs).expectation_values(full_hilbert_space=full)
+        return T.StabilizerMeasurementFitter(tomo.FakeResult(counts_list[0]), circs[0]).expectation_values(full_hilbert_space=full)
+
     for full in (True, False):
-        probs = []
-        try:
+        def symbolic():
+            probs = []
+            vals = call(all_counts, full)
             if mode == "fst":
-                fitter = T.FullStateTomographyFitter(tomo.FakeResult(all_counts), circs)
-                vals = fitter.expectation_values(full_hilbert_space=full)
                 # split the union back per circuit by the symbols occurring in the value
                 per = {j: {} for j in range(len(circs))}
                 ident = None
@@ -103,14 +109,20 @@ def subset_job(args):
                         d[ident[0]] = ident[1]
                     probs += tomo.check_fitter_dict(d, ros[j], m, N, list(ql), f"c{j}_", full)
             else:
-                vals = T.StabilizerMeasurementFitter(tomo.FakeResult(all_counts[0]), circs[0]).expectation_values(full_hilbert_space=full)
                 probs += tomo.check_fitter_dict(vals, ros[0], m, N, list(ql), "c0_", full)
-        except tomo.SymbolicBranch as e:
-            probs = [f"fitter branched on a count value: {e}"]
-        except Exception as e:
-            probs = [f"fitter raised {type(e).__name__}: {e}"]
-        out.append((f"C11.fitter.values.{'full_register' if full else 'reduced'}", not probs, f"fit:{N}:{list(ql)}:{n}:{conn}:{mode}:{full}",
+            return probs
+
+        ok, probs = tomo.symbolic_or_withdraw(symbolic, lambda: call(tomo.dense_concrete(N, len(circs), rnd, spaced_odd), full))
+        out.append((f"C11.fitter.values.{'full_register' if full else 'reduced'}", ok, f"fit:{N}:{list(ql)}:{n}:{conn}:{mode}:{full}",
                     f"{mode} on qubits {list(ql)} of {N} ({n}-{conn}, full_hilbert_space={full}): {probs[:3]}", rp))
+        specs = [(ro, m, list(ql), full) for ro in ros]
+        for tag, cl in tomo.concrete_sets(N, len(circs), rnd, all_deltas=False, spaced_odd=spaced_odd, light=True):
+            try:
+                pc = tomo.check_concrete(call(cl, full), specs, cl, N)
+            except Exception as e:
+                pc = [f"fitter raised {type(e).__name__}: {e}"]
+            out.append((f"C11.fitter.values.concrete_results", not pc, f"conc:{N}:{list(ql)}:{n}:{conn}:{mode}:{full}:{tag}",
+                        f"{mode} on qubits {list(ql)} of {N} ({n}-{conn}, full_hilbert_space={full}), {tag}: {pc[:3]}", dict(rp, counts=tag)))
     return out
 
 
@@ -146,19 +158,37 @@ def embed_job(args):
         m = len(ql)
         st = Stabilizer(Graph.cycle(m))          # ring graph state: the layer search is fast (few solutions); the embedding does not depend on the state
         rp = {"N": N, "measured_qubits": list(ql), "n": m, "connectivity": conn, "mode": "embed"}
+        import random as _r
+        rnd = _r.Random(hash((N, tuple(ql))) & 0xFFFFFF)
         try:
             c = T.stabilizer_measurement_circuit(QuantumCircuit(N), st, conn, list(ql))
             ro = adapt.gates_of(c.metadata["readout info"].circuit)
+        except Exception as e:
+            out.append((f"C11.embed", False, f"embed:{N}:{list(ql)}", f"measuring qubits {list(ql)} of {N}: stabilizer_measurement_circuit raised {type(e).__name__}: {e}", rp))
+            continue
+
+        def symbolic():
             counts = tomo.symbolic_counts(N, "c0_")
             probs = []
             for full in (True, False):
                 vals = T.StabilizerMeasurementFitter(tomo.FakeResult(counts), c).expectation_values(full_hilbert_space=full)
                 probs += [f"full={full}: {p}" for p in tomo.check_fitter_dict(vals, ro, m, N, list(ql), "c0_", full)]
-        except tomo.SymbolicBranch as e:
-            probs = [f"fitter branched on a count value: {e}"]
-        except Exception as e:
-            probs = [f"raised {type(e).__name__}: {e}"]
-        out.append((f"C11.embed", not probs, f"embed:{N}:{list(ql)}", f"measuring qubits {list(ql)} of {N}: {probs[:2]}", rp))
+            return probs
+
+        def concrete():
+            cl = tomo.dense_concrete(N, 1, rnd)
+            probs = []
+            for full in (True, False):
+                vals = T.StabilizerMeasurementFitter(tomo.FakeResult(cl[0]), c).expectation_values(full_hilbert_space=full)
+                probs += [f"full={full}: {p}" for p in tomo.check_concrete(vals, [(ro, m, list(ql), full)], cl, N)]
+            return probs
+
+        ok, probs = tomo.symbolic_or_withdraw(symbolic, concrete)
+        if ok is None:
+            # symbolic counts unusable on this code: decide the embedding on dense concrete counts instead (generic counts separate all 2^m - 1 values)
+            pc = concrete()
+            ok, probs = (False, pc) if pc else (None, probs)
+        out.append((f"C11.embed", ok, f"embed:{N}:{list(ql)}", f"measuring qubits {list(ql)} of {N}: {probs[:2]}", rp))
     return out
 
 
@@ -199,9 +229,15 @@ def run(ctx: core.Ctx):
     jobs = list(dict.fromkeys(jobs))
     for res in core.pmap(subset_job, jobs):
         for famname, ok, key, what, rp in res:
-            fam = ctx.family(famname, SYM, "native-exec+linear-normal-form+oracle")
+            conc = famname.endswith("concrete_results")
+            fam = ctx.family(famname, GROUND if conc else SYM, "native+oracle" if conc else "native-exec+linear-normal-form+oracle")
             fam.exhaustive = True
-            fam.domain = "N=3..5(6): all ordered 2- and 3-subsets (seeded where stated), configurations for m; ALL N-qubit states via symbolic counts"
+            fam.domain = "N=3..5(6): all ordered 2- and 3-subsets (seeded where stated), configurations for m; " + \
+                ("concrete results (deterministic / two-outcome / dense / float; absent keys; register spaces)" if conc else "ALL N-qubit states via symbolic counts")
+            if ok is None:
+                ctx.record(fam, core.UNKNOWN, rp)
+                ctx.undecide(fam, what)
+                continue
             ctx.record(fam, PROVED if ok else REFUTED, rp if fam.total < 2 else None)
             if not ok:
                 ctx.violate(fam, key, what, rp)
@@ -220,6 +256,10 @@ def run(ctx: core.Ctx):
                              "full-register keys carry factor k on qubit qubits[k]; values marginalise exactly the listed qubits; symbolic counts over all 2^N outcomes")
             fam.exhaustive = exh
             fam.domain = f"{'ALL ordered' if exh else 'structured (ascending / reversed / one adjacent transposition / rotations of every subset) + seeded'} {m}-lists of {N} qubits"
+            if ok is None:
+                ctx.record(fam, core.UNKNOWN, rp)
+                ctx.undecide(fam, what)
+                continue
             ctx.record(fam, PROVED if ok else REFUTED, rp if fam.total < 2 else None)
             if not ok:
                 ctx.violate(fam, key, what, rp)
@@ -234,10 +274,10 @@ def run(ctx: core.Ctx):
 def replay(data):
     inp = data["input"]
     if inp.get("mode") == "embed":
-        bad = [r for r in embed_job((inp["N"], [tuple(inp["measured_qubits"])], inp["connectivity"])) if not r[1]]
+        bad = [r for r in embed_job((inp["N"], [tuple(inp["measured_qubits"])], inp["connectivity"])) if r[1] is False]
     elif "job" in inp:
         j = inp["job"]
-        bad = [r for r in subset_job((j[0], tuple(j[1]), j[2], j[3], j[4], j[5])) if not r[1]]
+        bad = [r for r in subset_job((j[0], tuple(j[1]), j[2], j[3], j[4], j[5])) if r[1] is False]
     else:
         bad = [r for r in marginal_job(inp["N"]) if not r[1] and r[2] == data["key"]]
     for r in bad:
